@@ -269,4 +269,168 @@ theorem pages_drain (v W : Nat) (rest : List RowsPage) : ∀ (p : RowsPage), Pag
     | none => rfl
     | some y => simp [List.flatMap_cons]
 
+/-! ## the Scanner over the pages -/
+
+theorem needFetch_inpage (q : QIter) (hp : q.it.pos < q.it.numRows) : needFetch q = false := by
+  have : ¬ q.it.pos ≥ q.it.numRows := by omega
+  simp [needFetch, this]
+
+theorem pnext_here (v : Nat) (fut : List FrameRead.Bytes) (s : PScanner) (h : needFetch s.q = false) :
+    pnext v true fut s = nextHere s fut := by
+  cases fut <;> simp [pnext, h]
+
+/-- one row of the current page through Next + Scan -/
+theorem pscanner_row (v : Nat) (fut : List FrameRead.Bytes) (s : PScanner) (tcs : List (TypeDesc × Cell)) (rest : FrameRead.Bytes) (W : Nat)
+    (hf : s.q.it.failed = false) (hp : s.q.it.pos < s.q.it.numRows) (hc : s.cols.length = tcs.length)
+    (hm : colsMatch s.q.it.md.columns (tcs.map (·.1))) (hw : wfRow tcs = true)
+    (hW : totalWidth (tcs.map (·.1)) = W) (ha : s.q.it.md.actualColCount = (W : Int))
+    (hb : s.q.it.buf = eRow (tcs.map (·.2)) ++ rest) :
+    let s1 : PScanner := { q := { s.q with it := { s.q.it with pos := s.q.it.pos + 1, buf := rest } },
+                           cols := tcs.map (fun tc => cellData tc.2), valid := true }
+    pnext v true fut s = .ok s1 fut true ∧
+    ∃ s2, pscannerScan s1 (List.replicate W true) = .ok s2 (rowCalls 0 tcs) ∧ s2.cols = s1.cols ∧ s2.valid = false := by
+  intro s1
+  constructor
+  · rw [pnext_here v fut s (needFetch_inpage s.q hp)]
+    unfold nextHere Scanner.next
+    have h2 : ¬ s.q.it.pos ≥ s.q.it.numRows := by omega
+    simp only [hf, Bool.false_eq_true, if_false, h2, hc, hb]
+    rw [readCells_ok tcs rest hw]
+    simp [s1, hf]
+  · refine ⟨{ it := s1.q.it, cols := s1.cols, valid := false }, ?_, rfl, rfl⟩
+    unfold pscannerScan Scanner.scan
+    have h3 : ¬ ((List.replicate W true).length : Int) ≠ s.q.it.md.actualColCount := by simp [ha]
+    have := scannerCols_ok s.q.it.md.columns tcs [] 0 W [] hm hw (by simpa using hW)
+    simp only [List.length_nil, List.nil_append] at this
+    simp only [s1, Bool.not_true, Bool.false_eq_true, if_false, h3, this]
+
+theorem pdrainS_page (v : Nat) (rows : List (List (TypeDesc × Cell))) (ts : List TypeDesc) (W k : Nat)
+    (fut : List FrameRead.Bytes) : ∀ (s : PScanner),
+    s.q.it.failed = false → s.q.it.pos + rows.length = s.q.it.numRows → s.cols.length = ts.length →
+    colsMatch s.q.it.md.columns ts → (∀ row ∈ rows, row.map (·.1) = ts) → (∀ row ∈ rows, wfRow row = true) →
+    totalWidth ts = W → s.q.it.md.actualColCount = (W : Int) →
+    s.q.it.buf = eRows (rows.map (fun row => row.map (·.2))) →
+    ∃ s1 : PScanner, s1.q = atEnd s.q ∧ s1.cols.length = ts.length ∧
+      pdrainS v (List.replicate W true) (rows.length + k) fut s
+        = (match pdrainS v (List.replicate W true) k fut s1 with
+           | some (cs, s', f) => some (rows.map (rowCalls 0) ++ cs, s', f)
+           | none => none) := by
+  induction rows with
+  | nil =>
+    intro s hf hn hc _ _ _ _ _ hb
+    have hp : s.q.it.pos = s.q.it.numRows := by simpa using hn
+    have hb' : s.q.it.buf = [] := by simpa [eRows] using hb
+    refine ⟨s, ?_, hc, ?_⟩
+    · obtain ⟨⟨⟨f, p, md, n, b⟩, e, h, mo⟩, c, va⟩ := s
+      simp only [atEnd] at *
+      subst hp; subst hb'; rfl
+    · simp only [List.length_nil, Nat.zero_add, List.map_nil, List.nil_append]
+      cases pdrainS v (List.replicate W true) k fut s with
+      | none => rfl
+      | some x => rfl
+  | cons row rows ih =>
+    intro s hf hn hc hm hts hw hW ha hb
+    have hrow := hts row (by simp)
+    have hlen : row.length = ts.length := by rw [← hrow]; simp
+    have hb' : s.q.it.buf = eRow (row.map (·.2)) ++ eRows (rows.map (fun row => row.map (·.2))) := by
+      simpa [eRows, eRow] using hb
+    have hp : s.q.it.pos < s.q.it.numRows := by simp at hn; omega
+    obtain ⟨hnext, s2, hscan, hc2, hv2⟩ := pscanner_row v fut s row _ W hf hp (by rw [hc, hlen]) (by rw [hrow]; exact hm)
+      (hw row (by simp)) (by rw [hrow]; exact hW) ha hb'
+    obtain ⟨s1, hq1, hc1, hd1⟩ := ih
+      { q := { s.q with it := { s.q.it with pos := s.q.it.pos + 1, buf := eRows (rows.map (fun row => row.map (·.2))) } },
+        cols := row.map (fun tc => cellData tc.2), valid := false }
+      hf (by simp at hn ⊢; omega) (by simp [hlen]) hm (fun r hr => hts r (by simp [hr])) (fun r hr => hw r (by simp [hr])) hW ha rfl
+    refine ⟨s1, by rw [hq1]; rfl, hc1, ?_⟩
+    have hl : (row :: rows).length + k = (rows.length + k) + 1 := by simp; omega
+    rw [hl]
+    simp only [pdrainS, hnext, hscan, hc2, hv2]
+    rw [hd1]
+    cases pdrainS v (List.replicate W true) k fut s1 with
+    | none => rfl
+    | some x => simp
+
+theorem pdrainS_switch (v : Nat) (dests : List Bool) (s : PScanner) (hf : s.q.it.failed = false)
+    (hp : s.q.it.pos ≥ s.q.it.numRows) (hm : s.q.more = true)
+    (w : FrameRead.Bytes) (ws : List FrameRead.Bytes) (q' : QIter) (hs : step1 v true w = .iter q') (k : Nat) :
+    pdrainS v dests (k + 1) (w :: ws) s = pdrainS v dests (k + 1) ws { s with q := q' } := by
+  have hn : needFetch s.q = true := by simp [needFetch, hf, hp, hm]
+  simp only [pdrainS, pnext, hn, if_true, hs]
+
+theorem pdrainS_last (v : Nat) (dests : List Bool) (s : PScanner) (hf : s.q.it.failed = false)
+    (hp : s.q.it.pos = s.q.it.numRows) (hm : s.q.more = false) (fut : List FrameRead.Bytes) (k : Nat) :
+    pdrainS v dests (k + 1) fut s = some ([], s, fut) := by
+  have hn : needFetch s.q = false := by simp [needFetch, hm]
+  have hnx : Scanner.next { it := s.q.it, cols := s.cols, valid := s.valid } = .ok ({ it := s.q.it, cols := s.cols, valid := s.valid }, false) :=
+    scanner_end _ hf hp
+  simp only [pdrainS, pnext_here v fut s hn, nextHere, hnx, hf]
+  simp
+
+theorem pdrainS_error (v : Nat) (dests : List Bool) (s : PScanner) (r : LResp) (msg : FrameRead.Bytes) (e : ErrBody)
+    (hq : s.q = qErr r msg e) (fut : List FrameRead.Bytes) (k : Nat) :
+    pdrainS v dests (k + 1) fut s = some ([], s, fut) := by
+  have hf : s.q.it.failed = true := by rw [hq]; rfl
+  have hn : needFetch s.q = false := by simp [needFetch, hf]
+  have hnx : Scanner.next { it := s.q.it, cols := s.cols, valid := s.valid } = .ok ({ it := s.q.it, cols := s.cols, valid := s.valid }, false) := by
+    simp [Scanner.next, hf]
+  have he : s.q.err.isNone = false := by rw [hq]; rfl
+  simp only [pdrainS, pnext_here v fut s hn, nextHere, hnx, hf, he]
+  simp
+
+/-- a page whose rows have `C` columns (the Scanner's cell buffer is made once, from the first page) -/
+def PageOkS (v W C : Nat) (p : RowsPage) : Prop := PageOk v W p ∧ (colTypes p.m.cols).length = C
+
+theorem pdrainS_page_spec (v W C : Nat) (p : RowsPage) (hp : PageOkS v W C p) (k : Nat) (fut : List FrameRead.Bytes)
+    (s : PScanner) (hq : s.q = pageQ p) (hc : s.cols.length = C) :
+    ∃ s1 : PScanner, s1.q = atEnd (pageQ p) ∧ s1.cols.length = C ∧
+      pdrainS v (List.replicate W true) (p.rs.length + k) fut s
+        = (match pdrainS v (List.replicate W true) k fut s1 with
+           | some (cs, s', f) => some (pageCalls p ++ cs, s', f)
+           | none => none) := by
+  obtain ⟨⟨_, _, _, hcols, hwr, hW⟩, hC⟩ := hp
+  obtain ⟨h1, h2, h3⟩ := typedRowsP_props (colTypes p.m.cols) p.rs hwr
+  obtain ⟨s1, hq1, hc1, hd⟩ := pdrainS_page v (typedRowsP (colTypes p.m.cols) p.rs) (colTypes p.m.cols) W k fut s
+    (by rw [hq]; rfl) (by rw [hq]; simp [pageQ, qOf, iterOf, typedRowsP]) (by rw [hc, hC])
+    (by rw [hq]; simpa [pageQ, qOf, iterOf, viewMeta] using colsMatch_view p.m.cols) h1 h2 hW
+    (by rw [hq]; simpa [pageQ, qOf, iterOf, viewMeta, hW] using actualCount_eq p.m.cols hcols)
+    (by rw [hq]; simp [pageQ, qOf, iterOf, h3])
+  have hl : (typedRowsP (colTypes p.m.cols) p.rs).length = p.rs.length := by simp [typedRowsP]
+  rw [hl] at hd
+  exact ⟨s1, by rw [hq1, hq], by rw [hc1, hC], hd⟩
+
+/-- ALL PAGES through the Scanner -/
+theorem pagesS_drain (v W C : Nat) (rest : List RowsPage) : ∀ (p : RowsPage), PageOkS v W C p → (∀ x ∈ rest, PageOkS v W C x) →
+    chained p rest → ∀ (k : Nat) (tailFut : List FrameRead.Bytes) (s : PScanner), s.q = pageQ p → s.cols.length = C →
+    ∃ s1 : PScanner, s1.q = atEnd (pageQ (lastPage p rest)) ∧ s1.cols.length = C ∧
+    pdrainS v (List.replicate W true) (rowCount (p :: rest) + (k + 1)) (rest.map (fun x => encodeFrame v x.r) ++ tailFut) s
+      = (match pdrainS v (List.replicate W true) (k + 1) tailFut s1 with
+         | some (cs, s', f) => some ((p :: rest).flatMap pageCalls ++ cs, s', f)
+         | none => none) := by
+  induction rest with
+  | nil =>
+    intro p hp _ _ k tailFut s hq hc
+    obtain ⟨s1, h1, h2, h3⟩ := pdrainS_page_spec v W C p hp (k + 1) tailFut s hq hc
+    exact ⟨s1, h1, h2, by simpa [rowCount, lastPage] using h3⟩
+  | cons x xs ih =>
+    intro p hp hall hch k tailFut s hq hc
+    obtain ⟨hmore, hch'⟩ := hch
+    have hx : PageOkS v W C x := hall x (by simp)
+    obtain ⟨s1, hq1, hc1, h1⟩ := pdrainS_page_spec v W C p hp (rowCount (x :: xs) + (k + 1))
+      ((x :: xs).map (fun x => encodeFrame v x.r) ++ tailFut) s hq hc
+    have hstep : step1 v true (encodeFrame v x.r) = .iter (pageQ x) := step1_rows v x.r x.m x.rs hx.1.1 hx.1.2.1 hx.1.2.2.1
+    have hsw := pdrainS_switch v (List.replicate W true) s1 (by rw [hq1]; rfl) (by rw [hq1]; simp [atEnd])
+      (by rw [hq1]; simpa [atEnd, pageQ, qOf] using hmore)
+      (encodeFrame v x.r) (xs.map (fun x => encodeFrame v x.r) ++ tailFut) (pageQ x) hstep (rowCount (x :: xs) + k)
+    obtain ⟨s2, hq2, hc2, h2⟩ := ih x hx (fun y hy => hall y (by simp [hy])) hch' k tailFut { s1 with q := pageQ x } rfl hc1
+    refine ⟨s2, by simpa [lastPage] using hq2, hc2, ?_⟩
+    have hcount : rowCount (p :: x :: xs) + (k + 1) = p.rs.length + (rowCount (x :: xs) + (k + 1)) := by
+      simp [rowCount]; omega
+    have hk : rowCount (x :: xs) + (k + 1) = rowCount (x :: xs) + k + 1 := by omega
+    rw [hcount, h1]
+    simp only [List.map_cons, List.cons_append] at hsw ⊢
+    rw [hk, hsw, ← hk, h2]
+    cases pdrainS v (List.replicate W true) (k + 1) tailFut s2 with
+    | none => rfl
+    | some y => simp [List.flatMap_cons]
+
 end C04
